@@ -131,8 +131,11 @@ func main() {
 			exit = 1
 		}
 		if selfFail {
+			// Checker self-validation says nothing about /repo: it is reported and
+			// recorded in the evidence, and (unless BSVET_STRICT_SELFTEST=1, used
+			// during development) does not change the verdict on the tree.
 			fmt.Printf("SELFTEST-FAILED property=%s (a killing variant survived or a neutral variant was flagged; see evidence)\n", id)
-			if exit == 0 {
+			if exit == 0 && os.Getenv("BSVET_STRICT_SELFTEST") == "1" {
 				exit = 2
 			}
 		}
